@@ -1,7 +1,7 @@
 """C17 — prefix registration protocol (DESIGN §4 C17)."""
 import ast
 
-from .common import (ctx, family, returns, calls_in_ctx, reach_from_succ, site, srcs_text, resolve_call, const_bool, stmt_at)
+from .common import (ctx, family, returns, calls_in_ctx, reach_from_succ, site, srcs_text, resolve_call, const_bool, stmt_at, full_text)
 from ..esc import esc_of, short
 from ..flow import callee_attr
 from ..loader import AnalysisError, norm
@@ -258,7 +258,7 @@ def run(R):
         if n.kind == 'stmt' and isinstance(n.ast, ast.Assign) and isinstance(n.ast.value, ast.Call):
             t = ast.unparse(n.ast.value)
             if 'localhost' in t or 'localhop' in t:
-                lt = [tn for tn in tests if ast.unparse(tn.ast) == 'local']
+                lt = [tn for tn in tests if 'isLocalFace()' in full_text(mk, tn.ast)]
                 if not lt:
                     probs.append(('scope is not chosen by the locality of the face', n.ast))
                 else:
